@@ -14,6 +14,8 @@ import json, os, resource
 from vp import val, coqrun, rustrun
 from vp.val import cN, cbool, clist, cpair
 from gen.common import IPV4, IPV6
+IPV4_MC = (1 << 16) | 2
+IPV6_MC = (2 << 16) | 2
 
 MARKER = [255] * 16
 
@@ -576,6 +578,14 @@ def update_forms():
         out.append(('reach_%s_path_ids' % f, upd(fam, 0, [[pid, all_masks(v6)[8 + k][1]] for k, pid in enumerate([0, 1, 255, 256, 65535, 65536, 2 ** 32 - 1])], NH6 if v6 else NH4), 1))
         out.append(('reach_%s_path_ids_without_addpath' % f, upd(fam, 0, [[5, all_masks(v6)[24][1]], [2 ** 32 - 1, all_masks(v6)[16][1]]], NH6 if v6 else NH4), 0))
         out.append(('reach_%s_single_default_route' % f, upd(fam, 0, [all_masks(v6)[0]], NH6 if v6 else NH4), 0))
+    # another SAFI through the same path (everything but IPv4 unicast goes through MP_REACH / MP_UNREACH):
+    # IPv4 / IPv6 multicast, whose NLRI are plain prefixes
+    for fam, v6, f in ((IPV4_MC, 0, 'v4_multicast'), (IPV6_MC, 1, 'v6_multicast')):
+        for ap in (0, 1):
+            out.append(('reach_%s_ap%d' % (f, ap), upd(fam, 0, host_entries(v6, 3, ap), NH6 if v6 else NH4), ap))
+            out.append(('unreach_%s_ap%d' % (f, ap), upd(fam, 1, host_entries(v6, 3, ap)), ap))
+        out.append(('eor_%s' % f, upd(fam, 2), 0))
+        out.append(('reach_%s_all_masks' % f, upd(fam, 0, all_masks(v6), NH6 if v6 else NH4), 0))
     for nm, at in ATTR_KINDS:
         base = [] if nm.startswith(('origin', 'aspath')) else []
         attrs = ([[0, 1, 0]] if not nm.startswith('origin') else []) + at + ([[1, 2, [2, 1, 0, 0, 253, 233]]] if not nm.startswith('aspath') else [])
@@ -642,7 +652,7 @@ def enum_cases():
         add('bmp_hdr_matrix_' + an, {'kind': 'bmp', 'pre': [], 'msgs': ms})
     # ---- BMP: every update form, alone in a session
     for nm, u, ap in forms:
-        add('bmp_' + nm, {'kind': 'bmp', 'pre': [], 'msgs': [[0, H6 if u[2] == IPV6 else H4, u, ap]]})
+        add('bmp_' + nm, {'kind': 'bmp', 'pre': [], 'msgs': [[0, H6 if u[2] >> 16 == 2 else H4, u, ap]]})
     for nm, u, ap in split_windows():
         add('bmp_' + nm, {'kind': 'bmp', 'pre': [], 'msgs': [[0, H4, u, ap]]})
     for nm, u, ap in big_attr_forms():
@@ -708,7 +718,7 @@ def enum_cases():
     MH4 = [65001, 65000, 0, [192, 0, 2, 1], [192, 0, 2, 254], 1]
     MH6 = [4200000000, 65000, 0, list(V6S[0]), list(V6S[5]), 1]
     for nm, u, ap in forms:
-        add('mrt_' + nm, {'kind': 'mrt', 'pre': [], 'msgs': [[MH6 if u[2] == IPV6 else MH4, u, ap]]})
+        add('mrt_' + nm, {'kind': 'mrt', 'pre': [], 'msgs': [[MH6 if u[2] >> 16 == 2 else MH4, u, ap]]})
     for nm, u, ap in split_windows():
         add('mrt_' + nm, {'kind': 'mrt', 'pre': [], 'msgs': [[MH4, u, ap]]})
     for nm, u, ap in big_attr_forms():
@@ -1123,7 +1133,7 @@ class Prop:
                 for pdu in v.get('pdus', []):
                     where.append(pl); pl.append(None)
                     ap = flat.pop(0) if flat else 0
-                    jobs.append([[IPV4, IPV6], ap, pdu])
+                    jobs.append([[IPV4, IPV6, IPV4_MC, IPV6_MC], ap, pdu])
                 per.append(pl)
             o.insert(2, per)
         for k, c in enumerate(cases):
@@ -1677,7 +1687,7 @@ class Prop:
             if u[0] != 2:
                 tags.append('embedded_' + {1: 'open', 3: 'notification', 4: 'keepalive', 5: 'route_refresh'}[u[0]])
                 continue
-            tags.append(['reach', 'unreach', 'eor'][u[1]] + ('_v6' if u[2] == IPV6 else '_v4'))
+            tags.append(['reach', 'unreach', 'eor'][u[1]] + ('_v6' if u[2] >> 16 == 2 else '_v4') + ('_multicast' if u[2] & 255 == 2 else ''))
             if ap: tags.append('addpath')
             try:
                 if len(split_frames(bl[0])) > 1: tags.append('update_split_into_frames')
